@@ -33,6 +33,11 @@ class C07(FragHarness, WrapHarness):
                                     'ind': ind, 'imax': 1, 'gen': 'sym1x', 'n': 3 if q else 4, 'tokens': ()})
         out.append({'level': 'text', 'feat': 'full', 'algo': 'F', 'sep': 'A', 'split': 'N', 'bw': False, 'ind': 'none',
                     'gen': 'sym1x', 'n': 5 if q else 6, 'tokens': ()})
+        for split in ('N', 'H'):
+            out.append({'level': 'text', 'feat': 'full', 'algo': 'F', 'sep': 'A', 'split': split, 'bw': True, 'ind': 'none',
+                        'gen': 'words', 'nwords': 3 if q else 4, 'wl': 2, 'maxgap': 2 if (split == 'N' or not q) else 1})
+        out.append({'level': 'text', 'feat': 'full', 'algo': 'F', 'sep': 'A', 'split': 'N', 'bw': True, 'ind': 'si', 'imax': 1,
+                    'gen': 'words', 'nwords': 3, 'wl': 2, 'maxgap': 1})
         return out
 
     def bounds_text(self, tier):
@@ -208,6 +213,35 @@ class C07(FragHarness, WrapHarness):
             # differences are not what the property is about)
             acc = add(acc, add(w, s)) if fp else v_add(acc, v_add(w, s))
 
+
+    def next_fragment_width(self, I, cfg, rest, wsub):
+        """display width of the fragment that starts at `rest` (the text from the first character of the following
+        line): the next space-delimited word, or -- with break_words, if that word is wider than the subsequent
+        line width -- its first forced piece (greedy, at least one character).  None when the hyphen splitter could
+        split the word (then the fragment boundary is not determined by spaces alone)."""
+        S = self.spec
+        word = []
+        for c in rest:
+            if I.branch(v_or(v_eq(c[0], 32), v_eq(c[0], 10))):
+                break
+            word.append(c)
+        if cfg.get('split', 'H') == 'H':
+            for c in word:
+                if I.branch(v_eq(c[0], ord('-'))):
+                    return None
+        elif cfg.get('split') != 'N':
+            return None
+        ww = S.display_width(I, word, sym_not_esc=True)
+        if not cfg.get('bw', True) or I.branch(v_le(ww, wsub)):
+            return ww
+        acc = 0
+        for c in word:
+            cw = S.char_width(I, c[0])
+            if I.branch(v_and(v_lt(0, acc), v_lt(wsub, v_add(acc, cw)))):
+                break
+            acc = v_add(acc, cw)
+        return acc
+
     def text_oracle(self, I, cfg, inp, lines):
         """every line holds as many fragments as fit: the first word (piece) of the following line would not have
         fitted.  Checked for the ASCII separator, where the next fragment is recoverable from the text: for two
@@ -235,26 +269,12 @@ class C07(FragHarness, WrapHarness):
             same_par = v_and(*[v_eq(c, 32) for c, _ in gap])
             if not I.branch(same_par):
                 continue
-            first = b['txt'].chars[0][0]
             wa = S.display_width(I, a['txt'].chars, sym_not_esc=True)
-            need = v_add(v_add(wa, len(gap)), S.char_width(I, first))
-            # a piece is at least one character wide unless the character has zero width; if even one more
-            # character fits, the greedy algorithm (with break_words) or the whole next word (without) was skipped
-            if cfg.get('bw', True):
-                I.check(v_lt(W, need), 'line-not-maximal',
-                        'line %d could have held the first character of the next line' % k)
-            else:
-                nxt = []
-                for c in b['txt'].chars:
-                    if I.branch(v_eq(c[0], 32)):
-                        break
-                    nxt.append(c)
-                # without break_words the next fragment is the whole next word (up to a hyphen split point);
-                # with NoHyphenation it is exactly the run up to the next space
-                if cfg.get('split') == 'N':
-                    need2 = v_add(v_add(wa, len(gap)), S.display_width(I, nxt, sym_not_esc=True))
-                    I.check(v_lt(W, need2), 'line-not-maximal',
-                            'line %d could have held the next word' % k)
+            fw = self.next_fragment_width(I, cfg, text[sb:], W)
+            if fw is None:
+                continue
+            I.check(v_lt(W, v_add(v_add(wa, len(gap)), fw)), 'line-not-maximal',
+                    'line %d could have held the first fragment of the next line' % k)
 
     def text_oracle_indented(self, I, cfg, inp, lines):
         """same maximality check when indents are present: slices are located by sequential matching (ASCII
@@ -297,17 +317,12 @@ class C07(FragHarness, WrapHarness):
             if not gap or not I.branch(v_and(*[v_eq(c, 32) for c, _ in gap])):
                 continue
             wa = S.display_width(I, lines[k]['txt'].chars, sym_not_esc=True)
-            first = text[sb][0]
-            if cfg.get('bw', True):
-                I.check(v_lt(W, v_add(v_add(wa, len(gap)), S.char_width(I, first))), 'line-not-maximal',
-                        'indented line %d could have held the first character of the next line' % k)
-            elif cfg.get('split') == 'N':
-                nxt = []
-                for c in text[sb:]:
-                    if I.branch(v_or(v_eq(c[0], 32), v_eq(c[0], 10))):
-                        break
-                    nxt.append(c)
-                I.check(v_lt(W, v_add(v_add(wa, len(gap)), S.display_width(I, nxt, sym_not_esc=True))),
-                        'line-not-maximal', 'indented line %d could have held the next word' % k)
+            dsi = S.display_width(I, inp['si'].chars, sym_not_esc=True)
+            wsub = v_ite(v_lt(W, dsi), 0, v_sub(W, dsi))
+            fw = self.next_fragment_width(I, cfg, text[sb:], wsub)
+            if fw is None:
+                continue
+            I.check(v_lt(W, v_add(v_add(wa, len(gap)), fw)), 'line-not-maximal',
+                    'indented line %d could have held the first fragment of the next line' % k)
 
 HARNESS = C07()
